@@ -1,8 +1,16 @@
-(* CarrierlayerRun.v — adapter for Model/CarrierLayer.v.
+(* CarrierlayerRun.v — adapter for Model/CarrierLayer.v and Model/CarrierTimed.v.
    carrierlayer run <ops>    ops: n | r<i>:x<hex> | c<i> | w:x<cid>:x<hex> | s<i> | f
-   -> up=<x<cid>:x<pkt>,...> rq=<n> k<i>=<state>:x<cid>:x<wire> ... *)
-From Coq Require Import List NArith Bool Arith String.
-From Snow Require Import Lib.Wire Model.Encap Model.CarrierLayer.
+   -> up=<x<cid>:x<pkt>,...> k<i>=<state>:x<cid>:x<wire> ... log=<<i>|-:x<cid>:x<pkt>,...> q=<x<cid>:x<pkt>,...>
+      (log = the ghost [consumed]: every packet taken off an outgoing queue, in order, with the carrier it was written
+       to; q = what is still queued, per ClientID in queue order: log restricted to a ClientID followed by q restricted
+       to it is what WriteTo accepted for it, C05_downstream_exactly_once_in_order)
+   carrierlayer trun <timeout> <ops>   the timed model; ops: n | r<i>:x<hex>:<now> | c<i> | w:x<cid>:x<hex>:<now> |
+                                       s<i>:<now> | f | v<now> | V<now> (both: the sweeper runs at <now>)
+   -> up=... acc=<x<cid>:<conv>:<packets input>:<live>,...> k<i>=... log=<<i>|-:<key>:<queue id>:x<pkt>,...>
+      lost=<<queue id>:x<pkt>,...> (left in closed queues)
+      (acc = the KCP listener's view of everything read or readable: one element per accepted connection) *)
+From Coq Require Import List NArith ZArith Bool Arith String.
+From Snow Require Import Lib.Wire Model.Encap Model.CarrierLayer Model.GoHeap Model.ClientMap Model.CarrierTimed.
 Import ListNotations.
 Open Scope N_scope.
 
@@ -40,6 +48,58 @@ Fixpoint carriers_print (i : nat) (ks : list carrier) : list bytes :=
          ++ bs ":x" ++ hex_encode (k_wire k)) :: carriers_print (S i) ks'
   end.
 
+Definition up_print (l : list (bytes * bytes)) : bytes :=
+  bs "up=" ++ list_print (map (fun '(p, c) => bs "x" ++ hex_encode c ++ bs ":x" ++ hex_encode p) l).
+
+Definition owner_print (o : option nat) : bytes :=
+  match o with Some i => dec_print (N.of_nat i) | None => bs "-" end.
+
+Definition log_print (l : list (option nat * bytes * bytes)) : bytes :=
+  bs "log=" ++ list_print (map (fun '(o, c, p) => owner_print o ++ bs ":x" ++ hex_encode c ++ bs ":x" ++ hex_encode p) l).
+
+Definition queued_print (l : list (bytes * list bytes)) : bytes :=
+  bs "q=" ++ list_print (flat_map (fun '(c, q) => map (fun p => bs "x" ++ hex_encode c ++ bs ":x" ++ hex_encode p) q) l).
+
+(* ---- timed *)
+Definition top_parse (t : bytes) : option top :=
+  match t with
+  | [110] => Some T_New
+  | 110 :: 58 :: _ => Some T_New
+  | [102] => Some T_ReadFrom
+  | 114 :: r =>                                           (* r<i>:x..:<now> *)
+      match split_on COLON r with
+      | [i; b; t] => opt_bind (dec_parse_nat i) (fun i' => opt_bind (payload_parse b) (fun b' =>
+                     opt_bind (zdec_parse t) (fun t' => Some (T_Recv i' b' t'))))
+      | _ => None
+      end
+  | 99 :: r => opt_bind (dec_parse_nat r) (fun i => Some (T_Close i))
+  | 115 :: r =>                                           (* s<i>:<now> *)
+      match split_on COLON r with
+      | [i; t] => opt_bind (dec_parse_nat i) (fun i' => opt_bind (zdec_parse t) (fun t' => Some (T_Send i' t')))
+      | _ => None
+      end
+  | 119 :: r =>                                           (* w:x<cid>:x<p>:<now> *)
+      match split_on COLON r with
+      | [_; c; p; t] => opt_bind (payload_parse c) (fun c' => opt_bind (payload_parse p) (fun p' =>
+                        opt_bind (zdec_parse t) (fun t' => Some (T_WriteTo c' p' t'))))
+      | _ => None
+      end
+  | 118 :: r => opt_bind (zdec_parse r) (fun t => Some (T_Sweep t))      (* v<now> *)
+  | 86 :: r => opt_bind (zdec_parse r) (fun t => Some (T_Sweep t))       (* V<now> *)
+  | _ => None
+  end.
+
+Definition acc_print (l : list lsess) : bytes :=
+  bs "acc=" ++ list_print (map (fun s => bs "x" ++ hex_encode (l_key s) ++ bs ":" ++ dec_print (l_conv s) ++ bs ":"
+                                           ++ dec_print (N.of_nat (List.length (l_in s))) ++ bs ":" ++ bool_print (l_live s)) l).
+
+Definition tlog_print (l : list (option nat * N * nat * bytes)) : bytes :=
+  bs "log=" ++ list_print (map (fun '(o, a, q, p) => owner_print o ++ bs ":" ++ dec_print a ++ bs ":" ++ dec_print (N.of_nat q)
+                                                       ++ bs ":x" ++ hex_encode p) l).
+
+Definition lost_print (d : list (nat * list payload)) : bytes :=
+  bs "lost=" ++ list_print (flat_map (fun '(q, l) => map (fun p => dec_print (N.of_nat q) ++ bs ":x" ++ hex_encode p) l) d).
+
 Definition run (args : list bytes) : bytes :=
   match args with
   | [op; ops] =>
@@ -48,9 +108,20 @@ Definition run (args : list bytes) : bytes :=
         | Some l =>
             let s := srun l in
             join [SP]
-              ([bs "up=" ++ list_print (map (fun '(p, c) => bs "x" ++ hex_encode c ++ bs ":x" ++ hex_encode p) (delivered s ++ recvq s))]
-               ++ carriers_print 0 (carriers s))
+              ([up_print (delivered s ++ recvq s)] ++ carriers_print 0 (carriers s)
+               ++ [log_print (consumed s); queued_print (sendqs s)])
         | None => ERR_BADCASE
+        end
+      else ERR_BADCASE
+  | [op; tmo; ops] =>
+      if beq op (bs "trun") then
+        match zdec_parse tmo, list_parse top_parse ops with
+        | Some t, Some l =>
+            let s := trun t l in
+            join [SP]
+              ([up_print (tdelivered s ++ trecvq s); acc_print (listener_view (tdelivered s ++ trecvq s))]
+               ++ carriers_print 0 (tcar s) ++ [tlog_print (tcons s); lost_print (dead (tcm s))])
+        | _, _ => ERR_BADCASE
         end
       else ERR_BADCASE
   | _ => ERR_BADCASE
